@@ -74,6 +74,23 @@ func progUniqueCtx(ctx string, base Beh) *LazyProgram {
 				e.noteDraw("v", v)
 			}()
 		}
+	case "custom2-guarded":
+		// the same two levels deep: the failure is signalled on the innermost T, the panic is recovered in the property
+		p.Body = func(t *rapid.T, e *Env) {
+			inner := rapid.Custom(func(it *rapid.T) uint64 {
+				x := rapid.Uint64().Draw(it, "x")
+				e.cur.Draws = fmt.Sprint(x)
+				e.Do(it, "custom2-guarded", fmt.Sprint(x))
+				return x
+			})
+			middle := rapid.Custom(func(it *rapid.T) uint64 { return inner.Draw(it, "inner") })
+			outer := rapid.Custom(func(it *rapid.T) uint64 { return middle.Draw(it, "middle") + 1 })
+			func() {
+				defer func() { _ = recover() }()
+				v := outer.Draw(t, "v")
+				e.noteDraw("v", v)
+			}()
+		}
 	case "custom2":
 		p.Body = func(t *rapid.T, e *Env) {
 			inner := rapid.Custom(func(it *rapid.T) uint64 {
